@@ -214,7 +214,7 @@ def parserFor (parse : ParseKind) (node : NodeKind) : Except Err ParserName := d
   | .class_ => pure .class_
   | .function => pure .function
   | .json_schema => pure .jsonSchema
-  | .pydantic => throw .attributeError                     -- `cdd/pydantic/parse.py` defines no function `pydantic`
+  | .pydantic => pure .pydantic                            -- `cdd.pydantic.parse.pydantic` = `partial(class_, infer_type=True)`
   | .sqlalchemy => pure .sqlalchemy
 
 inductive KwKey where
@@ -306,6 +306,9 @@ structure World where
   parse : ParserName → Entry → Except Err Str
   /-- the emitter applied to that IR with these keyword arguments: the emitted statement, or the exception -/
   emit : EmitKind → Kwargs → Entry → Except Err Stmt
+  /-- can `json.dump` serialise the dict the JSON-schema emitter returns for this entry?  (Not when the IR carries an AST node,
+      e.g. the `server_default=Identity()` of a SQLAlchemy primary key.) -/
+  jsonDumps : Entry → Bool := fun _ => true
 
 structure Cfg where
   tpl : Str
@@ -472,6 +475,8 @@ def assemble (cfg : Cfg) (syms : List Stmt) (all : List Str) : Except Err (List 
 structure JsonOut where
   ids : List Str
   wrapped : Bool
+  /-- `json.dump(schemas, f)` raises `TypeError` half-way: the file is already open and partly written -/
+  dumpFails : Bool := false
 deriving DecidableEq, Repr
 
 inductive Output where
@@ -508,7 +513,7 @@ def gen (W : World) (cfg : Cfg) (input : InputFile) : Except Err Output := do
   if cfg.emit == .jsonSchema then
     let ids ← genJson W cfg entries
     if ids.isEmpty then throw .stopIteration      -- `next(schemas_it)` on an empty mapping
-    pure (.json ⟨ids, decide (ids.length > 1)⟩)
+    pure (.json ⟨ids, decide (ids.length > 1), entries.any (fun e => !W.jsonDumps e)⟩)
   else
     let (syms, all) ← genEntries W cfg entries
     let body ← assemble cfg syms all
@@ -563,14 +568,19 @@ def Eff.writes? : Eff → Option String
   | .write p => some p
   | _ => Option.none
 
+/-- `json.dump` fails after the file was opened (only the JSON branch writes incrementally; `f.write(to_code(module))` is one call) -/
+def Output.dumpFails : Output → Bool
+  | .json o => o.dumpFails
+  | .module _ => false
+
 /-- `main` for `command == "gen"`: `run` is the result `gen(**args)` computes before it opens the output file
     (the module / the schemas, or the exception) -/
 def mainGen (fs : FS) (output : String) (phase : Int) (run : Except Err Output) : List Eff :=
   if fs.isfile (guardPath output) && phase == 0 then [.isfile (guardPath output), .raise .ioError]
   else .isfile (guardPath output) :: (match run with
     | .error e => [.raise e]
-    | .ok _ => .openAppend (writePath output) :: (match fs.openAppend (writePath output) with
-      | .ok _ => [.write (writePath output)]
+    | .ok out => .openAppend (writePath output) :: (match fs.openAppend (writePath output) with
+      | .ok _ => if out.dumpFails then [.write (writePath output), .raise .typeError] else [.write (writePath output)]
       | .error e => [.raise e]))
 
 end GenModule
